@@ -93,6 +93,15 @@ theorem C17_string_token_stops (buf : Bytes) (m : LexMode) (s s' : St) (tok : To
       simp only [isspaceC, decide_eq_true_eq] at hstop
       omega
 
+/-- "$-escapes and line continuations" between tokens / "without gaps": whatever a `lex` call (any mode, any
+in-bounds cursor) skips in front of the token it returns consists only of blanks and `$`-newline
+continuations — every skipped byte is space, TAB, VT, FF, `$`, CR or LF.  In particular no byte ≥ 0x80 and
+no printable character is ever dropped between two tokens. -/
+theorem C17_trivia_is_blank_or_continuation (buf : Bytes) (m : LexMode) (s s' : St) (tok : Token)
+    (hs : s.pos ≤ buf.length) (h : lex genCfg buf m s = .ok (tok, s')) :
+    ∀ i, s.pos ≤ i → i < tok.start → ∃ x : UInt8, buf[i]? = some x ∧ IsTriviaByte x.toNat :=
+  Res.sat_of_eq (lex_trivia genCfg_ok buf m s hs) h
+
 /-- "bytes 0x80-0xFF treated as ordinary characters", as a predicate of the configuration: a byte ≥ 0x80
 never ends the file (`EndOfFile` is only returned at the true end) and never ends a string token. -/
 def C17_high_bytes_full (cfg : Cfg) : Prop :=
